@@ -21,9 +21,9 @@ def main():
     name = sys.argv[1]
     d = '%s/seeded/%s' % (V, name)
     pids = sys.argv[2:] or [name.split('-')[0]]
-    rc, out = sh(['pgrep', '-f', 'runall.sh|check.py'])
-    others = [l for l in out.split() if l.strip() and int(l) != os.getpid()]
-    assert not others, 'another check is running against /repo (pids %s): wait for it' % others
+    rc, out = sh(['ps', '-eo', 'pid,args'])
+    others = [l for l in out.splitlines() if (' /verif/check.py C' in l and '/venv/bin/python' in l.split()[1:2]) or l.split()[1:3] == ['/bin/bash', './tools/runall.sh']]
+    assert not others, 'another check is running against /repo: wait for it\n' + '\n'.join(others)
     rc, out = sh(['git', '-C', '/repo', 'status', '--porcelain'])
     assert out.strip() == '', '/repo is not clean: ' + out
     rc, out = sh(['git', '-C', '/repo', 'apply', d + '/patch.diff'])
